@@ -88,6 +88,24 @@ func checkReturnIs(c *Ctx, rule, construct string, f *ssa.Function, k int, want,
 			}
 		}
 	}
+	// a text substitution applied to the file's content on its way to the parser: Replace / ReplaceAll take the
+	// text out wherever it stands, so content that merely contains it (inside a value) comes back changed
+	if diff != nil {
+		var sub *Term
+		normText(diff).walk(func(x *Term) {
+			if sub == nil && (x.isCall("strings.Replace") || x.isCall("strings.ReplaceAll")) && len(x.Args) >= 3 {
+				if x.Args[0].contains(func(y *Term) bool {
+					return y.isCall("os.ReadFile") || y.isCall("io/ioutil.ReadFile") || y.isCall("io.ReadAll") || y.isCall("io/ioutil.ReadAll")
+				}) {
+					sub = x
+				}
+			}
+		})
+		if sub != nil {
+			c.bad(rule, construct, f.Pos(), "the file's content goes through "+sub.Name+" before it is parsed: the text is taken out (or rewritten) wherever it occurs in the document, not only where the change was meant, so a stored value that contains it is read back changed ("+short(sub.String())+")")
+			return
+		}
+	}
 	c.cmpTerm(rule, construct, f.Pos(), diff, want, okWhy, "wrapper does not return the expected call", siblings...)
 }
 
